@@ -39,6 +39,22 @@ CHECKS = {
                      "run's. Rule JumpReset: a path jump with call-stack reset keeps globals and counts and leaves one frame.",
                 note="the harness re-applies the seed after reset (hook); base runs of the same build",
                 technique="TLA+ trace validation (InkHostTrace/InkHostAbs) of history+reset+replay"),
+    "C08": dict(level=MC, ref="5/C08",
+                text="TLC validates recorded runs against InkHostAbs rules SliceF/FinishF: every cont of explored base "
+                     "paths is replaced by time-limited continues under a virtual clock (pause after every step, random "
+                     "budgets, one pause at each step position with the guarded calls issued in the gap); unfinished "
+                     "slices do not move the abstract position, guarded calls are Rejected, the completing slice must "
+                     "give the unsliced observation (incl. save document), result and concatenated callback log.",
+                note="virtual clock hook (steps instead of milliseconds); base runs of the same build",
+                technique="TLA+ trace validation (InkHostTrace/InkHostAbs) of pause schedules + TLC model checking of InkHost"),
+    "C11": dict(level=MC, ref="5/C11",
+                text="TLC evaluates the rules ContNotifyRule/SetVarNotifyRule (InkHostRules) on every recorded call: the set "
+                     "of registered (observer, variable) pairs is tracked by the abstract state, globals are polled before "
+                     "and after every call; exactly one notification per changed watched variable, carrying the final "
+                     "value, after all external calls; none for unregistered pairs; one immediate notification per watcher "
+                     "for a host assignment; registrations survive reset.",
+                note="a continue returning Err is not required to notify; polling sees only committed values",
+                technique="TLA+ trace validation (InkHostTrace + InkHostRules) with observers added/removed at random points"),
 }
 
 NOT_YET = {}
